@@ -115,9 +115,13 @@ _SYMBOL = {"add": "+", "sub": "-", "mul": "*", "truediv": "/", "pow": "**", "flo
            "gt": ">", "lt": "<", "ge": ">=", "le": "<=", "eq": "==", "ne": "!="}
 
 
-def _num(fn, a, b):
+def _num(fn, a, b, a_series=True, b_series=True):
+    """One cell of `a fn b` exactly as numpy evaluates it for a series operand (1x1 array) and a plain scalar
+    (numpy takes shortcuts for scalar exponents, e.g. x**0.5 is sqrt(x), which differ from pow at -inf)."""
     with np.errstate(all="ignore"):
-        return float(fn(np.float64(a), np.float64(b)))
+        A = np.array([[a]], dtype=float) if a_series else a
+        B = np.array([[b]], dtype=float) if b_series else b
+        return float(np.asarray(fn(A, B), dtype=float).reshape(-1)[0])
 
 
 def _bcast(m, v):
@@ -144,7 +148,7 @@ def ref_binop(fn, a, b, reflected=False, rspan=None):
         for v in range(nv):
             x = a.get(t, _bcast(a, v)) if a_ref else a
             y = b.get(t, _bcast(b, v)) if b_ref else b
-            r = _num(op, y, x) if reflected else _num(op, x, y)
+            r = _num(op, y, x, b_ref, a_ref) if reflected else _num(op, x, y, a_ref, b_ref)
             if (_isnan(x) or _isnan(y)) and not _isnan(r):
                 amb[(t, v)] = [NAN, r]
             out.set(t, v, r)
@@ -1007,8 +1011,8 @@ class _Interp:
             refl = bool(other.get("refl"))
             res = _Res("binop:scalar", f"binop:{'rscalar' if refl else 'scalar'}:{fn}")
             res.inputs = (i,)
-            m2, amb = ref_binop(fn, m, s, reflected=refl, rspan=self.rspan(x))
             arg = int(s) if other.get("as_int") and s == int(s) else s
+            m2, amb = ref_binop(fn, m, arg, reflected=refl, rspan=self.rspan(x))
             out = self.call(res.name, py, arg, x) if refl else self.call(res.name, py, x, arg)
         res.created, res.model, res.dst, res.amb = out, m2, op["dst"], amb
         res.exact, res.trimmed = False, True
